@@ -126,12 +126,23 @@ Definition push_back_m (s : istr) (ch : Z) : res istr :=
 Definition pop_back_m (s : istr) : res istr :=
   if negb (get_size s =? 0) then unsafe_set_size s (sz (get_size s - 1)) else Contract.
 
-(* append(InputIt first, InputIt last): push_back each character *)
-Fixpoint append_range_m (s : istr) (l : list Z) : res istr :=
+(* append(InputIt first, InputIt last): "for (; first != last; ++first) push_back(*first);" — l = the characters
+   the iterator range yields, in the order it yields them *)
+Fixpoint push_back_loop_m (s : istr) (l : list Z) : res istr :=
   match l with
   | [] => Ok s
-  | x :: r => do s' <- push_back_m s x; append_range_m s' r
+  | x :: r => do s' <- push_back_m s x; push_back_loop_m s' r
   end.
+(* ... preceded, "if constexpr (RandomAccessIterator<InputIt>)" (pointers, reverse_iterator<pointer>), by
+   TETL_PRECONDITION(last - first >= 0) — true for every valid range — and
+   TETL_PRECONDITION(size_type(last - first) <= capacity() - size()) (fix commit 2a00b17: a sized range that does not
+   fit is reported before the first character is appended).  ra = false: forward / input iterators, no such check *)
+Definition append_range_cat_m (ra : bool) (s : istr) (l : list Z) : res istr :=
+  if ra then
+    if zlen l <=? sz (cap s - get_size s) then push_back_loop_m s l else Contract
+  else push_back_loop_m s l.
+(* pointers: what append(str), append(str, pos, count), operator+=(str), operator+ pass *)
+Definition append_range_m (s : istr) (l : list Z) : res istr := append_range_cat_m true s l.
 
 (* etl::rotate on the character array; iterators are offsets from data() *)
 Definition rotate_buf (b : list Z) (first mid last : Z) : res (list Z) :=
@@ -166,10 +177,13 @@ Definition erase_range_m (s : istr) (start distance : Z) : res istr :=
     else Contract
   else Contract.
 
-(* erase(index, count) *)
+(* erase(index, count): TETL_PRECONDITION(index <= size()) first (fix commit 05e379f: before it the check was left to
+   the iterator overload, after begin() + index had been formed), then erase(begin() + index, ... + safeCount) *)
 Definition erase_m (s : istr) (index count : Z) : res istr :=
-  let safe := min_sz count (sz (get_size s - index)) in
-  erase_range_m s index safe.
+  if index <=? get_size s then
+    let safe := min_sz count (sz (get_size s - index)) in
+    erase_range_m s index safe
+  else Contract.
 
 (* resize(count, ch) *)
 Definition resize_m (s : istr) (count ch : Z) : res istr :=
@@ -254,9 +268,15 @@ Definition assign_cstr_m (s : istr) (a : list Z) : res istr :=
 (* assign(str, pos, count): *this = str.substr(pos, count) *)
 Definition assign_str_sub_m (s : istr) (src : list Z) (pos count : Z) : res istr :=
   do o <- other_str s src; substr_m o pos count.
-(* assign(view, pos, count): basic_inplace_string{view.substr(pos, count)} -> assign(sv.begin(), sv.end()) -> (first, distance) *)
+(* basic_inplace_string(InputIt first, InputIt last): value-initialised storage, then append(first, last)
+   (fix commit 0c6dc7f: before it the iterator was handed to the (pointer, length) constructor, which only compiled
+   for pointers) *)
+Definition ctor_range_m (ra : bool) (c : Z) (ck : charkind) (l : list Z) : res istr :=
+  append_range_cat_m ra (default_str c ck) l.
+(* assign(view, pos, count): basic_inplace_string{view.substr(pos, count)} -> assign(sv.begin(), sv.end()) ->
+   *this = basic_inplace_string{first, last} with pointers *)
 Definition assign_view_sub_m (s : istr) (src : list Z) (pos count : Z) : res istr :=
-  do sub <- C08.Model.substr_m (arr_view src) pos count; ctor_ptr (cap s) (ckind s) (view_chars_m sub) (vlen sub).
+  do sub <- C08.Model.substr_m (arr_view src) pos count; ctor_range_m true (cap s) (ckind s) (view_chars_m sub).
 (* insert(index, s): insert_impl(begin() + index, s, Traits::length(s)) *)
 Definition insert_cstr_m (s : istr) (index : Z) (a : list Z) : res istr :=
   if index >? get_size s then Contract else
@@ -283,6 +303,14 @@ Definition free_erase_if_m (p : Z -> bool) (s : istr) : res (istr * Z) :=
   let rcount := sz (size - it) in
   do s' <- erase_range_m (with_buf s b) it rcount;
   Ok (s', rcount).
+
+(** * a pointer argument that points INTO the string itself (s.append(s.data() + off, n), s = s.c_str() + off,
+      s.replace(pos, n, s.data() + off, n2), ...): the array behind it is the object's own character array from off on.
+      assign / operator= / replace copy the source into a temporary string before they touch *this; append / insert
+      copy [data() + off, data() + off + n) to end(), which lies behind the source whenever off + n <= size(). The model
+      therefore runs these calls as the ordinary operation on a snapshot of the array; that the code really reads its
+      source before it overwrites it is what the self-aliasing cases of the correspondence run test. *)
+Definition self_src (s : istr) (off : Z) : list Z := skipn (Z.to_nat off) (buf s).
 
 (** * Histories *)
 Inductive op :=
@@ -312,7 +340,9 @@ Inductive op :=
 | OInsertStrSub (index : Z) (src : list Z) (indexStr count : Z)
 | OErasePos (pos : Z)
 | OFreeErase (value : Z)          (* etl::erase(s, value) *)
-| OFreeEraseIf (k : Z).           (* etl::erase_if(s, pred_of k) *)
+| OFreeEraseIf (k : Z)            (* etl::erase_if(s, pred_of k) *)
+| OAppendRangeIn (src : list Z).  (* append(first, last) with iterators that are NOT random access (forward-only /
+                                     input iterators): no up-front check, one push_back per character *)
 
 Definition step (s : istr) (o : op) : res istr :=
   match o with
@@ -345,6 +375,7 @@ Definition step (s : istr) (o : op) : res istr :=
   | OErasePos pos => erase_pos_m s pos
   | OFreeErase value => do r <- free_erase_if_m (fun x => x =? value) s; Ok (fst r)
   | OFreeEraseIf k => do r <- free_erase_if_m (pred_of k) s; Ok (fst r)
+  | OAppendRangeIn src => append_range_cat_m false s src
   end.
 
 (* the count returned by the free erase functions *)
